@@ -102,6 +102,25 @@ def run(ctx, tier):
             ctx.violation("result-differs-when-arguments-are-passed-by-name:" + _name(fn).split(".")[-1], function=_name(fn),
                           kwargs=repr(kw)[:300], positional_result=want[:300], keyword_result=got[:300], monitor="replay", case=None)
     ctx.hit("replay_keyword_calls", nk)
+    # phase 1e: message strings handed over as numpy.str_ (an element of a numpy array of messages) - a genuine str subclass
+    try:
+        import numpy as np
+    except Exception:
+        np = None
+    ns = 0
+    if np is not None:
+        for i in order[:3000]:
+            fn, a, k, want = rec[i]
+            if not any(type(x) is str and len(x) >= 8 for x in a):
+                continue
+            base = probe.call(fn, *_copy(a), **_copy(k))
+            alt = probe.call(fn, *[np.str_(x) if type(x) is str else x for x in _copy(a)], **_copy(k))
+            ns += 1
+            ctx.ev(2)
+            if _norm(alt) != _norm(base) and repr(_norm(alt)) != repr(_norm(base)):
+                ctx.violation("result-differs-for-numpy-str-argument:" + _name(fn).split(".")[-1], function=_name(fn), args=repr(a)[:300],
+                              with_str=repr(base)[:300], with_numpy_str=repr(alt)[:300], monitor="replay", case=None)
+    ctx.hit("replay_numpy_str_calls", ns)
     # phase 1c: each call preceded by a few calls taken from the workloads of ALL properties (another decoder's early
     # return or exception path may leave a module-level setting behind)
     cpath = os.environ.get("PMV_CORPUS")
@@ -228,6 +247,25 @@ def _cold(ctx, tier, rec, rng):
             os.remove(path)
         except OSError:
             pass
+
+
+def _norm(x):
+    """results with numpy scalars / arrays / str subclasses mapped to plain Python values (for comparisons across argument types)"""
+    try:
+        import numpy as np
+        if isinstance(x, np.ndarray):
+            return _norm(x.tolist())
+        if isinstance(x, np.generic):
+            return _norm(x.item())
+    except Exception:
+        pass
+    if isinstance(x, str):
+        return str(x)
+    if isinstance(x, (list, tuple)):
+        return tuple(_norm(v) for v in x)
+    if isinstance(x, dict):
+        return {str(k_): _norm(v) for k_, v in x.items()}
+    return x
 
 
 def _copy(x):
